@@ -118,17 +118,18 @@ int main(void) {
             h_n = 0; errno = H_ERRNO_PRE(id); h_fault_kind = 0;
             printf("#%ld\n", id); fflush(stdout);
             if (!sigsetjmp(h_jb, 1)) {
+                const size_t KB = H_KBOS(id, dest && dest != noz && dmax > 0, dmax);
                 h_armed = 1; alarm(5);
                 switch (fn) {
-                case 1: rc = _strerror_s_chk(dest, (rsize_t)dmax, (errno_t)a[0], BOSU); break;
-                case 2: rc = _asctime_s_chk(dest, (rsize_t)dmax, a[0] ? 0 : &tmv, BOSU); break;
-                case 3: rc = _ctime_s_chk(dest, (rsize_t)dmax, a[0] ? 0 : &tv, BOSU); break;
+                case 1: rc = _strerror_s_chk(dest, (rsize_t)dmax, (errno_t)a[0], KB); break;
+                case 2: rc = _asctime_s_chk(dest, (rsize_t)dmax, a[0] ? 0 : &tmv, KB); break;
+                case 3: rc = _ctime_s_chk(dest, (rsize_t)dmax, a[0] ? 0 : &tv, KB); break;
                 case 4: {
                     static const char *names[] = {"VERIF_A", "VERIF_EMPTY", "VERIF_LONG", "VERIF_MISSING", 0};
-                    rc = _getenv_s_chk(a[0] ? 0 : &lenv, dest, (rsize_t)dmax, names[a[1]], BOSU); break; }
+                    rc = _getenv_s_chk(a[0] ? 0 : &lenv, dest, (rsize_t)dmax, names[a[1]], KB); break; }
                 case 5: gp = (char *)gmtime_s(a[0] ? 0 : &tv, a[1] ? 0 : &tmres); rc = gp ? 0 : 1; break;
                 case 6: gp = (char *)localtime_s(a[0] ? 0 : &tv, a[1] ? 0 : &tmres); rc = gp ? 0 : 1; break;
-                case 7: gp = _gets_s_chk(dest, (rsize_t)dmax, BOSU); rc = gp ? 0 : 1; break;
+                case 7: gp = _gets_s_chk(dest, (rsize_t)dmax, KB); rc = gp ? 0 : 1; break;
                 case 8: rc = fopen_s(a[0] ? 0 : &sp_obj, a[1] ? 0 : (a[3] == 1 ? fmissing : a[3] == 2 ? fnew : fexist), a[2] ? 0 : (a[3] == 2 ? "w" : a[3] == 3 ? "q" : "r")); break;
                 case 9: rc = freopen_s(a[0] ? 0 : &sp_obj, a[1] ? 0 : (a[4] == 1 ? fmissing : fexist), a[2] ? 0 : (a[4] == 3 ? "q" : "r"), stream9); break;
                 case 10: rc = tmpfile_s(a[0] ? 0 : &sp_obj); break;
